@@ -83,6 +83,10 @@ func runReplay(c *core.Ctx) error {
 			if err := sxReplay(c, raw, i); err != nil {
 				return err
 			}
+		case "pss":
+			if err := pssReplay(c, raw, i); err != nil {
+				return err
+			}
 		case "rt":
 			var old rtCase
 			_ = json.Unmarshal(raw, &old)
